@@ -1201,6 +1201,9 @@ def _value_of_origin_args(
         return SubclassValue.make(_type_from_runtime(args[0], ctx))
     elif _is_tuple(origin):
         if not args:
+            if is_typing_name(val, "Tuple"):
+                # Bare typing.Tuple is tuple[Any, ...]; only Tuple[()] is the empty tuple.
+                return TypedValue(tuple)
             return SequenceValue(tuple, [])
         elif len(args) == 2 and args[1] is Ellipsis:
             return GenericValue(tuple, [_type_from_runtime(args[0], ctx)])
